@@ -331,6 +331,12 @@ fn base_cx() -> Cx {
         cx.methods.insert(m.into(), Meth::Pure(f.into()));
     }
     cx.methods.insert("iter".into(), Meth::Pure("RIter.into_iter".into()));
+    // `.cloned()` / `.copied()` on an iterator over references: the same elements
+    // (`.map(Clone::clone)` is `RIter.map _ id`)
+    cx.methods.insert("cloned".into(), Meth::Identity);
+    cx.methods.insert("copied".into(), Meth::Identity);
+    cx.methods.insert("is_ok".into(), Meth::Pure("RResult_is_ok".into()));
+    cx.methods.insert("is_err".into(), Meth::Pure("RResult_is_err".into()));
     cx.methods.insert("get_context".into(), Meth::Identity);
     cx.methods
         .insert("unwrap".into(), Meth::Fallible("RUnwrap.unwrap".into()));
@@ -343,6 +349,95 @@ fn base_cx() -> Cx {
     cx.fallible_fns
         .insert("run_tests".into(), ("run_tests".into(), true));
     cx
+}
+
+// ------------------------------------------------------- private helper functions
+
+/// Plain-name calls `h(…)` inside an expression / block.
+struct PlainCalls(Vec<String>);
+impl<'ast> Visit<'ast> for PlainCalls {
+    fn visit_expr_call(&mut self, c: &'ast syn::ExprCall) {
+        if let Expr::Path(p) = &*c.func {
+            if let Some(id) = p.path.get_ident() {
+                let n = id.to_string();
+                if !self.0.contains(&n) {
+                    self.0.push(n);
+                }
+            }
+        }
+        syn::visit::visit_expr_call(self, c);
+    }
+}
+
+fn helper_ty(t: &syn::Type) -> R {
+    let s = t.to_token_stream().to_string().replace(' ', "");
+    Ok(match s.as_str() {
+        "&str" | "&String" | "String" | "&'staticstr" => "Name".into(),
+        "bool" => "Bool".into(),
+        "RotoReport" => "CliErr".into(),
+        other => return Err(format!("helper function: type {other} is not in the vocabulary")),
+    })
+}
+
+/// Private helper functions.  A call `h(a, …)` by plain name to a free `fn h` of the SAME
+/// file, which the vocabulary does not know, gets its meaning from the definition of `h`
+/// itself: `h` is translated (same conventions as its caller) into a pure Lean definition,
+/// emitted before the caller and marked `@[simp]` so that the proofs see through it.  The
+/// parameter and return types must be in the small vocabulary of `helper_ty`, the body in the
+/// r2l subset and pure (it is elaborated in `Id`: a fallible operation does not type-check,
+/// which breaks the build — never a silent default).  Helpers of helpers are not followed
+/// (an unknown identifier breaks the Lean build).
+fn helper_defs(file: &syn::File, rel: &str, root: &syn::Block, cx: &Cx, done: &mut Vec<String>) -> R {
+    let mut pc = PlainCalls(vec![]);
+    pc.visit_block(root);
+    let mut out = String::new();
+    for name in pc.0 {
+        if done.contains(&name)
+            || cx.paths.contains_key(&name)
+            || cx.fallible_fns.contains_key(&name)
+            || cx.call_rewrites.contains_key(&name)
+        {
+            continue;
+        }
+        let fns: Vec<&syn::ItemFn> = file
+            .items
+            .iter()
+            .filter_map(|i| match i {
+                syn::Item::Fn(f) if f.sig.ident == name => Some(f),
+                _ => None,
+            })
+            .collect();
+        let [f] = fns.as_slice() else { continue };
+        if !f.sig.generics.params.is_empty() || f.sig.asyncness.is_some() || f.sig.unsafety.is_some() {
+            return Err(format!("helper function {name}: generic / async / unsafe"));
+        }
+        let mut params = String::new();
+        for a in &f.sig.inputs {
+            let syn::FnArg::Typed(t) = a else {
+                return Err(format!("helper function {name}: receiver"));
+            };
+            let Pat::Ident(pi) = &*t.pat else {
+                return Err(format!("helper function {name}: parameter pattern"));
+            };
+            if pi.mutability.is_some() {
+                return Err(format!("helper function {name}: `mut` parameter"));
+            }
+            params.push_str(&format!(" ({} : {})", crate::r2l::lean_ident(&pi.ident.to_string()), helper_ty(&t.ty)?));
+        }
+        let ret = match &f.sig.output {
+            syn::ReturnType::Type(_, t) => helper_ty(t)?,
+            syn::ReturnType::Default => return Err(format!("helper function {name}: no return type")),
+        };
+        let mut block = (*f.block).clone();
+        rewrite(&mut block)?;
+        let body = cx.m(&Expr::Block(syn::ExprBlock { attrs: vec![], label: None, block }))?;
+        out.push_str(&format!(
+            "/-- private helper `{name}` ({rel}), called by the code below -/\n@[simp] def {}{params} : {ret} := Id.run\n {body}\n\n",
+            crate::r2l::lean_ident(&name)
+        ));
+        done.push(name);
+    }
+    Ok(out)
 }
 
 // ------------------------------------------------------------ TestCase::run
@@ -364,6 +459,7 @@ fn get_tests(testing: &syn::File) -> R {
     rewrite(&mut f.block)?;
     let mut out = String::new();
     let mut cx = base_cx();
+    out.push_str(&helper_defs(testing, "src/codegen/testing.rs", &f.block, &cx, &mut vec![])?);
 
     // the `.filter(|x| …)` closure becomes a named predicate
     struct FilterFinder(Vec<syn::ExprClosure>);
@@ -580,6 +676,39 @@ fn state_stmts(cx: &Cx, stmts: &[Stmt], counters: &[String]) -> R {
             };
             format!("(do\n let st__ ← (do\n if {c} then {then}\n else {els})\n {rest_s})")
         }
+        // `if let P = E { … } else { … }` / `match E { P => { … } … }` over counter updates
+        Stmt::Expr(Expr::If(i), _) => {
+            let Expr::Let(l) = &*i.cond else { unreachable!() };
+            let scrut = cx.v(&l.expr)?;
+            let pat = cx.pat(&l.pat)?;
+            let then = state_stmts(cx, &i.then_branch.stmts, counters)?;
+            let els = match &i.else_branch {
+                None => "(pure st__)".to_string(),
+                Some((_, e)) => match &**e {
+                    Expr::Block(b) => state_stmts(cx, &b.block.stmts, counters)?,
+                    other @ Expr::If(_) => {
+                        state_stmts(cx, &[Stmt::Expr(other.clone(), None)], counters)?
+                    }
+                    _ => return Err("loop body: unsupported else".into()),
+                },
+            };
+            format!("(do\n let st__ ← (do match {scrut} with\n | {pat} => {then}\n | _ => {els})\n {rest_s})")
+        }
+        Stmt::Expr(Expr::Match(mm), _) => {
+            if mm.arms.iter().any(|a| a.guard.is_some()) {
+                return Err("loop body: guarded match arm".into());
+            }
+            let scrut = cx.v(&mm.expr)?;
+            let mut arms = String::new();
+            for a in &mm.arms {
+                let body = match &*a.body {
+                    Expr::Block(b) => state_stmts(cx, &b.block.stmts, counters)?,
+                    other => state_stmts(cx, &[Stmt::Expr(other.clone(), Some(Default::default()))], counters)?,
+                };
+                arms.push_str(&format!("\n | {} => {body}", cx.pat(&a.pat)?));
+            }
+            format!("(do\n let st__ ← (do match {scrut} with{arms})\n {rest_s})")
+        }
         other => {
             return Err(format!(
                 "loop body: unsupported statement: {}",
@@ -790,6 +919,7 @@ fn cli_fns(cli: &syn::File) -> R {
         }
         _ => return Err("cli_inner: the function does not end in `Ok(())`".into()),
     }
+    out.push_str(&helper_defs(cli, "src/cli.rs", &f.block, &cx, &mut vec![])?);
     let body = cx.block(&f.block.stmts)?;
     out.push_str(&format!(
         "/-- `cli_inner` (src/cli.rs); `Result<(), RotoReport>` is the error channel of `Cli` -/\ndef cli_inner (dbg : Bool) (W : World) (cli_args : CliArgs) (rt : Runtime) : Cli Unit :=\n {body}\n\n"
